@@ -61,6 +61,13 @@ class RefN(SNode):
         super().__init__(ty, name, dims, storage)
         self.target: Optional[SNode] = None
         self.idxnames: List[str] = []
+        self.offname: Optional[str] = None     # C variable holding a sub-slice offset, when some value stored here carries one
+
+    def need_off(self):
+        if self.offname is None:
+            self.offname = f"{self.name}_off"
+            self.storage.declare("usize", self.offname, self.dims)
+        return self.offname
 
     def set_target(self, target: SNode, who=""):
         if self.target is None:
@@ -140,6 +147,7 @@ class VScalar:
 class VRef:
     target: SNode
     idxs: List[str]
+    off: Optional[str] = None     # sub-slice view &v[off..]: element offset into the target array (only slice models understand it)
 
 
 @dataclass
@@ -539,6 +547,10 @@ class Translator:
                 assert len(v.idxs) == v.target.ndims, (v.target.name, v.idxs, v.target.dims)
                 for k, ix in enumerate(v.idxs):
                     self.emit(f"{n.idxnames[k]}{sub(dst.idxs)} = {ix};")
+                if v.off is not None:
+                    self.emit(f"{n.need_off()}{sub(dst.idxs)} = {v.off};")
+                elif n.offname is not None:
+                    self.emit(f"{n.offname}{sub(dst.idxs)} = 0;")
                 return
             if isinstance(v, VUnit):
                 return
@@ -582,6 +594,10 @@ class Translator:
             d.set_target(s.target, who=f"(copy {s.name} -> {d.name})")
             for k in range(s.target.ndims):
                 self.emit(f"{d.idxnames[k]}{sub(dst.idxs)} = {s.idxnames[k]}{sub(src.idxs)};")
+            if s.offname is not None:
+                self.emit(f"{d.need_off()}{sub(dst.idxs)} = {s.offname}{sub(src.idxs)};")
+            elif d.offname is not None:
+                self.emit(f"{d.offname}{sub(dst.idxs)} = 0;")
         elif d.kind == "struct":
             if len(d.fields) != len(s.fields):
                 raise TranslateError(f"struct layout mismatch {s.name} -> {d.name}")
@@ -702,6 +718,8 @@ class Translator:
             if n.kind == "ref":
                 if n.target is None:
                     raise TranslateError(f"dereference of reference {n.name} with unknown target")
+                if n.offname is not None:
+                    raise TranslateError(f"dereference of the sub-slice reference {n.name} (offset views are only modelled for iteration)")
                 return Loc(n.target, [f"{nm}{sub(loc.idxs)}" for nm in n.idxnames])
             if n.kind == "struct" and n.tag in ("Box", "Arc"):
                 return Loc(n.fields[0], loc.idxs)
@@ -777,11 +795,14 @@ class Translator:
             n = v.loc.node
             if n.target is None:
                 raise TranslateError(f"reference {n.name} has no known target")
-            return VRef(n.target, [f"{nm}{sub(v.loc.idxs)}" for nm in n.idxnames])
+            return VRef(n.target, [f"{nm}{sub(v.loc.idxs)}" for nm in n.idxnames],
+                        off=(f"{n.offname}{sub(v.loc.idxs)}" if n.offname is not None else None))
         raise TranslateError(f"expected a reference value, got {v}")
 
-    def deref(self, v) -> Loc:
+    def deref(self, v, allow_off=False) -> Loc:
         r = self.as_ref(v)
+        if r.off is not None and not allow_off:
+            raise TranslateError(f"use of the sub-slice reference into {r.target.name} outside the modelled slice operations")
         return Loc(r.target, list(r.idxs))
 
     # -- rvalues ---------------------------------------------------------------------------------
